@@ -475,7 +475,7 @@ var c10Registrants = []struct {
 	{"len17", make([]byte, 17)},
 }
 
-func u32(v uint32) *uint32 { return &v }
+func c10u32(v uint32) *uint32 { return &v }
 
 type c10Override struct {
 	name string
@@ -486,14 +486,14 @@ type c10Override struct {
 
 var c10Overrides = []c10Override{
 	{name: "none"},
-	{name: "port443", port: u32(443)},
-	{name: "port65535", port: u32(65535)},
-	{name: "port70000", port: u32(70000)},
-	{name: "port0", port: u32(0)},
-	{name: "v4", v4: u32(0xC0000263)},
-	{name: "v4zero", v4: u32(0)},
+	{name: "port443", port: c10u32(443)},
+	{name: "port65535", port: c10u32(65535)},
+	{name: "port70000", port: c10u32(70000)},
+	{name: "port0", port: c10u32(0)},
+	{name: "v4", v4: c10u32(0xC0000263)},
+	{name: "v4zero", v4: c10u32(0)},
 	{name: "v6", v6: net.ParseIP("2001:db8:1234::9")},
-	{name: "v6+v4+port", port: u32(8443), v4: u32(0xC6336401), v6: net.ParseIP("2001:db8::abcd")},
+	{name: "v6+v4+port", port: c10u32(8443), v4: c10u32(0xC6336401), v6: net.ParseIP("2001:db8::abcd")},
 	{name: "v6=v4mapped", v6: net.ParseIP("192.0.2.200").To16()},
 	{name: "v6=4bytes", v6: []byte{192, 0, 2, 201}},
 	{name: "v6=len3", v6: []byte{1, 2, 3}},
